@@ -5,6 +5,7 @@ import (
 	"time"
 
 	"verif/sim/engine"
+	"verif/sim/work"
 )
 
 // GenerateFor is Generate for a given kind of worker: the auto-yield worker
@@ -27,6 +28,28 @@ func GenerateFor(prop string, seed uint64, tier string, auto bool) *Spec {
 		for _, ops := range s.Tasks {
 			for i := range ops {
 				ops[i].Text = strings.ReplaceAll(ops[i].Text, "**.q", "items.q")
+			}
+		}
+		mo := engine.NewRNG(seed, "maporder")
+		s.MapDescending = mo.Chance(1, 2)
+		// programs whose evaluation or result order follows a Go map with
+		// several entries: only here, where that order is the simulator's
+		switch s.Kind {
+		case "shared-expr", "per-task-expr", "shared-doc", "frame-seq":
+			pg := &work.Gen{R: mo, Ext: true}
+			for i := range s.Exprs {
+				if mo.Chance(1, 3) && len(s.Exprs[i].Vars) == 0 {
+					p := pg.Program("mapord", mo.Range(0, 2))
+					s.Exprs[i].Text, s.Exprs[i].Family = p.Text, p.Family
+				}
+			}
+			for _, ops := range s.Tasks {
+				for i := range ops {
+					if ops[i].Kind == "compile" && ops[i].Family != "pipeline" && ops[i].Family != "churn" && ops[i].Family != "siblings" && len(ops[i].Vars) == 0 && mo.Chance(1, 4) {
+						p := pg.Program("mapord", mo.Range(0, 2))
+						ops[i].Text, ops[i].Family = p.Text, p.Family
+					}
+				}
 			}
 		}
 		// far-future wall clock: every other clock run lives between the
